@@ -1108,6 +1108,7 @@ def corpus():
 
 WITNESS_CASES = {
     'C09_add_component_atomic_refuted': 'component_same_child_ids',
+    'C09_connect_interface_atomic_refuted': 'connect_long_link_name',
 }
 
 
